@@ -43,6 +43,38 @@ proof {
 }
 '''
 
+# ---- next_lexeme is read in BOTH shapes ---------------------------------------------------------------------------
+#   recursive (/repo up to f565930): `self.next_lexeme()?` after a line continuation, `return self.next_lexeme()` after an
+#       ignored backslash; the only loop is the octal-digit `for`
+#   iterative (findings/continuation_recursion_fix.diff): `loop { .. continue; .. }` around the same text; loop 1 = the
+#       outer `loop`, loop 2 = the octal-digit `for`
+# The framework addresses loops by ordinal, so the ordinal of the `for` is computed from the tree under verification (the
+# number of `loop` keywords in the extracted body: 0 or 1). Once the fix is committed this can be frozen to
+# `'loops': {1: RESTART_LOOP, 2: OCT_LOOP}` and the function-level 'decreases' dropped.
+def _outer_loops():
+    import re
+    from vlib import assemble
+    try:
+        _raw, _sig, body = assemble.locate({'kind': 'fn', 'file': F, 'container': SL, 'name': 'next_lexeme'})
+        return len(re.findall(r'\bloop\b', assemble.strip_comments(body)))
+    except Exception:
+        return 0        # anchor lost: reported by the framework when it extracts the item itself
+
+# (iterative shape only) the outer `loop`: every `continue` restarts the SAME ISO lexeme at a later position
+RESTART_LOOP = {
+    'invariant': [('restart_cursor', 'self.buf == old(self).buf && self.nested == old(self).nested && self.wf() && old(self).pos <= self.pos'),
+                  ('restart_same_lexeme', 'lit_step(self.buf@, self.pos as int, self.nested as int) == lit_step(old(self).buf@, old(self).pos as int, old(self).nested as int)')],
+    'decreases': 'self.buf@.len() - self.pos'}
+# the octal-digit loop (both shapes); p0 = position where the current attempt at the lexeme starts
+OCT_LOOP = {
+    'for_ghost': 'it',
+    'invariant': [('oct_cursor', 'self.buf == old(self).buf && self.nested == old(self).nested && self.wf() && p1 == p0 + 1 && self.pos == p1 + it.index@'),
+                  ('oct_digits', 'forall|j: int| p1 <= j < self.pos ==> is_oct(self.buf@[j])'),
+                  ('oct_value_is_iso', 'char_code as int == oct_val(self.buf@, p1, self.pos - p1) && char_code < 512 && (self.pos - p1 < 3 ==> char_code < 64)')],
+    'ensures': [('oct_stop', 'self.pos == p1 + 3 || (self.pos < p1 + 3 && self.pos < self.buf@.len() && !is_oct(self.buf@[self.pos as int]))')]}
+_N = _outer_loops()
+LEXEME_LOOPS = dict([(k + 1, RESTART_LOOP) for k in range(_N)] + [(_N + 1, OCT_LOOP)])
+
 NWS = ('({ let p = skip_iso(old(self).buf@, old(self).pos as int); if p >= old(self).buf@.len() { r is Err } '
        'else { r == Ok::<u8, PdfError>(old(self).buf@[p]) && final(self).pos == p + 1 } })')
 HEX = ('({ let st = hex_step(old(self).buf@, old(self).pos as int); if st.eof || st.bad { r is Err } '
@@ -94,16 +126,17 @@ UNIT = {
      'ensures': [('lex_frame', 'final(self).buf == old(self).buf && final(self).wf()'),
                  ('lex_depth', 'r matches Ok(Some(_)) ==> final(self).nested >= 0')]
                 + [(lbl, '%s == %d ==> %s' % (CLS, k, LEX)) for k, lbl in LEX_CLASSES],
-     'decreases': 'old(self).buf@.len() - old(self).pos',
-     'loops': {1: {'for_ghost': 'it',
-                   'invariant': [
-                     ('oct_cursor', 'self.buf == old(self).buf && self.nested == old(self).nested && self.wf() && p1 == old(self).pos + 1 && self.pos == p1 + it.index@'),
-                     ('oct_digits', 'forall|j: int| p1 <= j < self.pos ==> is_oct(self.buf@[j])'),
-                     ('oct_value_is_iso', 'char_code as int == oct_val(self.buf@, p1, self.pos - p1) && char_code < 512 && (self.pos - p1 < 3 ==> char_code < 64)'),
-                   ],
-                   'ensures': [('oct_stop', 'self.pos == p1 + 3 || (self.pos < p1 + 3 && self.pos < self.buf@.len() && !is_oct(self.buf@[self.pos as int]))')],
-                   }},
+     # recursive shape: measure of the recursion. Iterative shape: the constant measure `0nat`, which no call of next_lexeme
+     # from its own body can decrease, so ANY self-call fails the obligation `terminates` - the expressible part of "the
+     # stack depth does not grow with the input" (without a clause Verus would stop with a compile error = UNDECIDED);
+     # termination itself is carried by the `decreases` of the outer loop
+     'decreases': '0nat' if _N else 'old(self).buf@.len() - old(self).pos',
+     'loops': LEXEME_LOOPS,
      'rewrites': [
+        # p0 = position at which the lexeme under construction starts (== old(self).pos in the recursive shape, the position
+        # at the head of the current iteration in the iterative shape)
+        {'rule': 'R1', 'regex': r'let c = self\.next_byte\(\)\?;(\s*(?:return\s+)?match c\s*\{)',
+         'replace': r'let ghost p0 = self.pos as int; let c = self.next_byte()?;\1'},
         {'rule': 'R2', 'regex': r'for _ in (\d+\s*\.\.=?\s*\d+)', 'replace': r'for _i in \1'},   # `_` loop variable named; the range stays under proof
         {'rule': 'R2', 'find': 'Some(char_code as u8)', 'replace': 'Some(#[verifier::truncate] (char_code as u8))'},
         {'rule': 'R1', 'find': 'let mut char_code: u16 = 0;', 'replace': 'let mut char_code: u16 = 0; let ghost p1 = self.pos as int;'},
